@@ -43,7 +43,7 @@ type hspec struct {
 
 type arrangement struct {
 	H            []hspec `json:"handlers"`
-	PanicHandler int     `json:"panic_handler"` // 0 none, 1 by option, 2 by setter (a panic handler that itself panics is outside the property)
+	PanicHandler int     `json:"panic_handler"` // 0 none, 1 by option, 2 by setter, 3 by option and then removed with SetPanicHandler(nil), 4 WithPanicHandler(nil) (a panic handler that itself panics is outside the property)
 	Obs          bool    `json:"observability"` // a (no-op) Observability is configured
 }
 
@@ -115,6 +115,11 @@ func (in *inst) Body() {
 	case 2:
 		bus = eventbus.New(opts...)
 		bus.SetPanicHandler(ph)
+	case 3:
+		bus = eventbus.New(append(opts, eventbus.WithPanicHandler(ph))...)
+		bus.SetPanicHandler(nil)
+	case 4:
+		bus = eventbus.New(append(opts, eventbus.WithPanicHandler(nil))...)
 	default:
 		bus = eventbus.New(opts...)
 	}
@@ -204,7 +209,7 @@ func (in *inst) Check(res *vrt.Result) []vrt.Violation {
 				}
 			}
 			wantCalls := w
-			if a.PanicHandler == 0 {
+			if a.PanicHandler == 0 || a.PanicHandler >= 3 {
 				wantCalls = 0
 			}
 			if n != wantCalls {
@@ -223,7 +228,7 @@ func (in *inst) Check(res *vrt.Result) []vrt.Violation {
 				ok = true
 			}
 		}
-		if !ok || a.PanicHandler == 0 {
+		if !ok || a.PanicHandler == 0 || a.PanicHandler >= 3 {
 			bad("panic-handler", "panic handler called with unexpected arguments: "+e.S)
 		}
 	}
@@ -248,7 +253,7 @@ func (in *inst) Check(res *vrt.Result) []vrt.Violation {
 	}
 	// ... and after their panics had been reported: a delivery that panicked is not over
 	// until the panic handler has been called for it
-	if a.PanicHandler != 0 {
+	if a.PanicHandler == 1 || a.PanicHandler == 2 {
 		for i, e := range evs {
 			if e.K == "panic" && i > wret && (e.A == pubIDs[0] || e.A == pubIDs[1]) {
 				bad("wait", "Wait returned before the panic of an async handler, for an event published before Wait was called, had been reported to the panic handler")
@@ -289,6 +294,10 @@ func arrangements(maxLen int) []arrangement {
 						l = append(l, arrangement{H: append([]hspec{}, cur...), PanicHandler: ph, Obs: true})
 					}
 				}
+				if len(cur) == 1 || (len(cur) == 2 && cur[0].Panics && !cur[1].Panics) {
+					// a panic handler that was taken away again, or given as nil: as if none
+					l = append(l, arrangement{H: append([]hspec{}, cur...), PanicHandler: 3}, arrangement{H: append([]hspec{}, cur...), PanicHandler: 4})
+				}
 			}
 		}
 		if len(cur) == maxLen {
@@ -310,6 +319,9 @@ func run(c *h.Check) {
 	runOverlap(c)
 	for _, s := range rshapes() {
 		c.Explore(rScenario(s), 2, 50000, false)
+	}
+	for _, s := range bshapes() {
+		c.Explore(bScenario(s), 2, 50000, false)
 	}
 	maxLen, bound := 2, 1
 	if c.Thorough() {
@@ -335,6 +347,11 @@ func run(c *h.Check) {
 func replay(c *h.Check, rf *h.ReplayFile) []vrt.Violation {
 	if vs, ok := replayOverlap(rf); ok {
 		return vs
+	}
+	for _, s := range bshapes() {
+		if s.name == rf.Scenario {
+			return h.ReplaySchedule(bScenario(s), rf)
+		}
 	}
 	for _, s := range rshapes() {
 		if s.name() == rf.Scenario {
